@@ -120,6 +120,9 @@ def run(ctx):
     if ctx.replay and 'bytes_cases' in ctx.replay:
         bytes_family(ctx, 0, ctx.replay['bytes_cases'])
         return
+    if ctx.replay and 'reconnect' in ctx.replay:
+        reconnect_family(ctx, 0, ctx.replay['reconnect'])
+        return
     if ctx.replay and 'straddle' in ctx.replay:
         straddle_family(ctx, 0, ctx.replay['straddle'])
         return
@@ -147,6 +150,9 @@ def run(ctx):
         n_str = straddle_family(ctx, 150 if ctx.quick() else 1500)
         n_bytes += n_str
         bytes_classes['bytes:frame-straddling-a-260-byte-read'] = n_str
+        n_rec = reconnect_family(ctx, 150 if ctx.quick() else 1500)
+        n_bytes += n_rec
+        bytes_classes['bytes:connection-ends-after-a-bare-header-then-reconnect'] = n_rec
     classes = {}
     for c, i in zip(cases, impl):
         for k in cl.classify(c, i):
@@ -428,6 +434,93 @@ def straddle_family(ctx, n, items=None):
                               f'required {it["want"]}, the client reports {got}, session ends {ended}; client_session|ref_session = {ms}; impl={i}',
                               {'straddle': [it], 'impl': i}, no_failing_input=not why[0].startswith('C11.'))
     ctx.oblige('correspondence:frame-straddling-the-end-of-the-receive-buffer-vs-spec', bad == 0, f'{bad} of {len(items)}')
+    return len(items)
+
+
+def gen_reconnect(r, n):
+    """connection k ends after EXACTLY the 7 header bytes of a frame (not one body byte), the channel reconnects, then traffic on
+    connection k+1.  Spec: every connection's bytes are cut into frames separately - nothing of connection k is part of a
+    frame of connection k+1; the first request on the new connection completes only with the payload of a frame that
+    carried ITS transaction id on THAT connection."""
+    out = []
+    hexs = lambda b: ''.join('%02X' % x for x in b)
+    directed = [(length, same, end, idle) for length in (2, 3, 5, 7, 125, 254) for same in (True, False) for end in ('Z', 'R', 'DE') for idle in (True, False) if idle or end != 'DE']
+    r.shuffle(directed)
+    while len(out) < n:
+        length, same, end, idle = directed.pop() if directed else (r.choice([2, 3, 4, 5, 9, 60, 254]), r.random() < 0.6, r.choice(['Z', 'R', 'DE']), r.random() < 0.5)
+        tx0 = r.choice([0, 0, 1, 65534, 65535, 4660])
+        nreq = 1 if idle else 0                   # requests taken on connection k before the next connection's first request
+        # idle: request 100 is answered, THEN the header arrives with nothing outstanding; else: the header is all request 100 gets
+        txn = (tx0 + 1) % 65536                   # id of the first request on the next connection
+        htx = txn if same else r.choice([(txn + 1) % 65536, tx0, 0x0302, (txn + 255) % 65536])
+        if not same and htx == txn:
+            htx = (txn + 2) % 65536
+        header = [htx >> 8, htx & 255, 0, 0, length >> 8, length & 255, 1]
+        v0, v1 = r.randrange(65536), 0xBEEF
+        steps = ['E:f', 'CO', 'S:100:h1:1000000000:f']
+        want = {}
+        if idle:
+            steps.append('B:' + hexs(mbap(tx0, [3, 2, v0 >> 8, v0 & 255])))
+            want['100'] = f'Ok=100:{v0}'
+        steps.append('B:' + hexs(header))
+        if end == 'DE':
+            steps += ['D:f', 'E:f']
+            if not idle:
+                want['100'] = 'Timeout'       # a disable waits for the transaction: left out (request 100 then needs its deadline)
+                continue
+        else:
+            steps += [end, 'T:20000000']
+            if not idle:
+                want['100'] = 'Io'
+        steps += ['CO', 'S:200:h1:1000000000:f']
+        # the new connection: possibly a frame nobody asked for first, then the genuine reply (or an exception)
+        stream2 = []
+        if r.random() < 0.6:
+            ftx = r.choice([0x0302, (txn + 7) % 65536, tx0])
+            if ftx != txn:
+                stream2 += mbap(ftx, [3, 2, 0xDE, 0xAD])
+        kind = r.choice(['genuine', 'genuine', 'genuine', 'exception'])
+        stream2 += mbap(txn, [3, 2, v1 >> 8, v1 & 255]) if kind == 'genuine' else mbap(txn, [0x83, 4])
+        want['200'] = f'Ok=200:{v1}' if kind == 'genuine' else 'Exception=4'
+        i = 0
+        mode = r.choice(['one', 'random', 'bytes'])
+        while i < len(stream2):
+            j = len(stream2) if mode == 'one' else 1 if mode == 'bytes' else r.randrange(1, 9)
+            steps.append('B:' + hexs(stream2[i:i + j]))
+            i += j
+        line = f'cap=4 handles=1 mt=0 rmin=20000000 rmax=40000000{" tx0=" + str(tx0) if tx0 else ""} | ' + ' '.join(steps)
+        spec = f'(Base.ClientTypes.RReadHoldingRegisters (200, 1), {txn}, [{";".join(str(b) for b in stream2)}], Base.Frame.FinPending)'
+        out.append({'line': line, 'want': want, 'spec': spec, 'header_len': length, 'same_id': same, 'end': end, 'idle': idle})
+    return out
+
+
+def reconnect_family(ctx, n, items=None):
+    items = items or gen_reconnect(ctx.rng, n)
+    impl = ctx.harness('client', [it['line'] for it in items], shards=4)
+    ctx.build_models(['Spec.SystemClientShow'])
+    spec = ctx.coq_eval(['Spec.SystemClientShow', 'Base.ClientTypes', 'Base.Frame'], 'eval_spec', [it['spec'] for it in items],
+                        case_type='Base.ClientTypes.request * N * list N * Base.Frame.fin')
+    bad = 0
+    seen = set()
+    for it, i, sp in zip(items, impl, spec):
+        p = cl.parse(cl.canon(i))
+        got = {str(cid): cls for cid, cls, _ in p['comp']} if p else {}
+        why = []
+        if sp != it['want']['200']:
+            why.append('spec-evaluation-differs-from-the-expectation-by-construction')
+        if got != it['want']:
+            g2 = got.get('200', '')
+            why.insert(0, 'C11.request-completed-with-bytes-of-a-frame-header-left-over-from-the-previous-connection'
+                       if (g2.startswith('Ok=') or g2.startswith('Exception=')) and g2 != it['want']['200']
+                       else 'C11.request-on-a-new-connection-not-completed-by-the-frame-that-carried-its-id-on-that-connection')
+        if why:
+            bad += 1
+            if why[0] not in seen:
+                seen.add(why[0])
+                ctx.violation(why[0], f'[{it["line"]}]: the previous connection ended after exactly the 7 header bytes of a frame (length field {it["header_len"]}, '
+                              f'{"the id of the next request" if it["same_id"] else "another id"}); required {it["want"]} (Spec on the new connection\'s bytes alone: {sp}), '
+                              f'the client reports {got}; impl={i}', {'reconnect': [it], 'impl': i}, no_failing_input=not why[0].startswith('C11.'))
+    ctx.oblige('correspondence:header-only-end-of-a-connection-then-the-next-connection-vs-spec', bad == 0, f'{bad} of {len(items)}')
     return len(items)
 
 
